@@ -3,6 +3,7 @@ package main
 import (
 	"fmt"
 	"go/ast"
+	"go/constant"
 	"go/token"
 	"go/types"
 	"sort"
@@ -117,7 +118,7 @@ func checkC03(c *Ctx) {
 		"(C03.kw) every keyword token of the manual's table is consumed somewhere in the grammar; (C03.syn) synonymous spellings are interchangeable: Chinese/ASCII punctuation pairs map to one token type, 之/的 and 设为/= appear together in every consume set; " +
 		"(C03.linebreak) the line-continuation exception lists equal the manual's sets ({， 、 { 【 ： ？} before / {】 }} after a line end) and each hashmap entry resets the statement-complete flag like its siblings; " +
 		"(C03.indent) block membership is decided only by equality of indentation levels (never by an ordering comparison); (C03.sections) the section state of a program / exec block only moves forward (导入 -> statements; 输入 -> statements -> 拦截) and a body may end only in the statement or catch state. " +
-		"NOT decided: equality of the tree with the BNF for all programs and layout-invariance as such (they quantify over all renderings); operator precedence is C01."
+		"(C03.yield) the 得到 suffix has one owner per production: a production (or the production calling a chain helper) that consumes 得到 itself passes parseYieldResult=false to its inner calls; (C03.linebreak) additionally the line-break test compares the following token's start line with the current token's END line. NOT decided: equality of the tree with the BNF for all programs and layout-invariance as such (they quantify over all renderings); operator precedence is C01."
 	R.Assumptions = []string{"the required-field table in c03.go lists the fields pkg/exec dereferences without a nil test (reviewed)", "tables/keywords.json"}
 	u := c.Core()
 	u.buildSSA()
@@ -350,39 +351,135 @@ func checkC03(c *Ctx) {
 
 	// ---- C03.linebreak
 	if fd, _ := u.funcDecl("pkg/syntax/zh", "ParserZH.meetStmtLineBreak"); fd != nil {
-		pe3 := newPE(u, info, fd)
 		want := map[string][]string{
-			"exceptCurrentTokenTypes":   {"TypeCommaSep", "TypePauseCommaSep", "TypeStmtQuoteL", "TypeArrayQuoteL", "TypeFuncCall", "TypeFuncDeclare"},
-			"exceptFollowingTokenTypes": {"TypeArrayQuoteR", "TypeStmtQuoteR"},
+			"after-current-token":    {"TypeCommaSep", "TypePauseCommaSep", "TypeStmtQuoteL", "TypeArrayQuoteL", "TypeFuncCall", "TypeFuncDeclare"},
+			"before-following-token": {"TypeArrayQuoteR", "TypeStmtQuoteR"},
 		}
-		for name, ws := range want {
-			o := findLocal(info, fd, name)
-			var got []int64
-			if o != nil {
-				if lit := pe3.findListLiteral(o); lit != nil {
-					for _, el := range lit.Elts {
+		// the exception lists are the token-type list literals of the function, whatever they are called
+		var lists [][]int64
+		ast.Inspect(fd.Body, func(n ast.Node) bool {
+			if cl, ok := n.(*ast.CompositeLit); ok {
+				if _, isSlice := info.TypeOf(cl).Underlying().(*types.Slice); isSlice {
+					var got []int64
+					for _, el := range cl.Elts {
 						if v, ok := constInt(info, el); ok {
 							got = append(got, v)
 						}
 					}
-				}
-			}
-			ok := len(got) == len(ws)
-			for _, w := range ws {
-				found := false
-				for _, g := range got {
-					if g == typeConsts[w] {
-						found = true
+					if len(got) == len(cl.Elts) {
+						lists = append(lists, got)
 					}
 				}
-				if !found {
-					ok = false
+			}
+			return true
+		})
+		for name, ws := range want {
+			ok := false
+			for _, got := range lists {
+				same := len(got) == len(ws)
+				for _, w := range ws {
+					found := false
+					for _, g := range got {
+						if g == typeConsts[w] {
+							found = true
+						}
+					}
+					if !found {
+						same = false
+					}
+				}
+				if same {
+					ok = true
 				}
 			}
 			R.check(ok, "C03.linebreak", "meetStmtLineBreak:"+name, u.pos(fd.Pos()), "equals the manual's set "+strings.Join(ws, " "), "line-continuation exception list differs from the manual")
 		}
+		// "a line break separates the two tokens" = the following token starts on a later line than the one the
+		// current token ENDS on (a multi-line literal followed by more text on its last line is one statement)
+		if f := u.ssaFunc("pkg/syntax/zh", "ParserZH.meetStmtLineBreak"); f != nil {
+			okCmp, badCmp := false, ""
+			for _, b := range f.Blocks {
+				ifi, isIf := b.Instrs[len(b.Instrs)-1].(*ssa.If)
+				if !isIf {
+					continue
+				}
+				bo, isB := ifi.Cond.(*ssa.BinOp)
+				if !isB {
+					continue
+				}
+				fx, okx := fieldLoadAnyName(bo.X)
+				fy, oky := fieldLoadAnyName(bo.Y)
+				if !okx || !oky || !strings.Contains(fx, "LineIdx") || !strings.Contains(fy, "LineIdx") {
+					continue
+				}
+				switch {
+				case fx == "StartLineIdxP2" && fy == "EndLineIdxP1" && (bo.Op == token.GTR || bo.Op == token.LEQ),
+					fx == "EndLineIdxP1" && fy == "StartLineIdxP2" && (bo.Op == token.LSS || bo.Op == token.GEQ):
+					okCmp = true
+				default:
+					badCmp = fx + " " + bo.Op.String() + " " + fy + " at " + u.pos(ifi.Pos())
+				}
+			}
+			R.check(okCmp && badCmp == "", "C03.linebreak", "meetStmtLineBreak:line-comparison", u.pos(fd.Pos()), "start line of the following token is compared with the END line of the current token", "the line-break test does not compare the following token's start line with the current token's end line ("+badCmp+"): a multi-line literal splits its statement")
+		}
 	} else {
 		R.lost("C03.linebreak", "pkg/syntax/zh.ParserZH.meetStmtLineBreak")
+	}
+	// ---- C03.yield: the 得到 ‹name› suffix has exactly one owner per production. A production that consumes
+	// 得到 itself (for the whole chain) must parse its inner calls with parseYieldResult = false, otherwise the
+	// first call of `以 X（a）、（b）得到 R` swallows the suffix / binds it to the wrong call
+	if pf := u.ssaFunc("pkg/syntax/zh", "ParseFuncCallExpr"); pf != nil && len(pf.Params) == 2 {
+		ownsYield := map[string]bool{}
+		for _, cs := range sites {
+			if cs.set[typeConsts["TypeGetResultW"]] {
+				ownsYield[cs.fn] = true
+			}
+		}
+		nY := 0
+		for _, g := range u.srcFuncs("pkg/syntax/zh") {
+			if g == pf {
+				continue
+			}
+			owner := g
+			for owner.Parent() != nil {
+				owner = owner.Parent()
+			}
+			// the production, or a production that calls this helper (the helper parses the chain on its behalf)
+			var owns func(fn *ssa.Function, depth int) bool
+			owns = func(fn *ssa.Function, depth int) bool {
+				for fn.Parent() != nil {
+					fn = fn.Parent()
+				}
+				if ownsYield[strings.TrimPrefix(u.fname(fn), "pkg/syntax/zh.")] {
+					return true
+				}
+				if depth == 0 {
+					return false
+				}
+				for _, cs := range u.staticCallers(fn) {
+					if cs.Parent() != fn && owns(cs.Parent(), depth-1) {
+						return true
+					}
+				}
+				return false
+			}
+			for _, call := range u.callsNamed(g, "pkg/syntax/zh.ParseFuncCallExpr") {
+				nY++
+				k, isK := call.Common().Args[1].(*ssa.Const)
+				key := u.fname(g) + ":" + siteName(u, g, call)
+				if !isK || k.Value == nil {
+					R.undecided("C03.yield", key, u.pos(call.Pos()), "parseYieldResult is not a constant at this call")
+					continue
+				}
+				inner := constant.BoolVal(k.Value)
+				R.check(!(inner && owns(owner, 2)), "C03.yield", key, u.pos(call.Pos()), "得到 has one owner here", "this production consumes 得到 itself and also lets the inner call consume it: in a call chain the suffix is bound to the wrong call")
+			}
+		}
+		if nY < 2 {
+			R.viol("C03.yield", "instances", "", fmt.Sprintf("expected at least 2 calls of ParseFuncCallExpr, found %d", nY))
+		}
+	} else {
+		R.lost("C03.yield", "pkg/syntax/zh.ParseFuncCallExpr")
 	}
 	// siblings: every appended hashmap entry is followed by unsetStmtCompleteFlag before the next token is consumed
 	if f := u.ssaFunc("pkg/syntax/zh", "ParseArrayExpr"); f != nil {
